@@ -91,6 +91,9 @@ func (p Poly) Neg() Poly {
 	return r
 }
 
+// monoSep separates the factors of a monomial internally (symbol names may contain any printable text).
+const monoSep = "\x1f"
+
 func mulMono(a, b string) string {
 	if a == "" {
 		return b
@@ -98,9 +101,9 @@ func mulMono(a, b string) string {
 	if b == "" {
 		return a
 	}
-	parts := append(strings.Split(a, "·"), strings.Split(b, "·")...)
+	parts := append(strings.Split(a, monoSep), strings.Split(b, monoSep)...)
 	sort.Strings(parts)
-	return strings.Join(parts, "·")
+	return strings.Join(parts, monoSep)
 }
 
 func (p Poly) Mul(q Poly) Poly {
@@ -138,13 +141,14 @@ func (p Poly) String() string {
 			sb.WriteString(" + ")
 		}
 		cs := c.RatString()
+		kd := strings.ReplaceAll(k, monoSep, "·")
 		switch {
 		case k == "":
 			sb.WriteString(cs)
 		case cs == "1":
-			sb.WriteString(k)
+			sb.WriteString(kd)
 		default:
-			sb.WriteString(cs + "·" + k)
+			sb.WriteString(cs + "·" + kd)
 		}
 	}
 	return sb.String()
@@ -174,6 +178,8 @@ type Folder struct {
 	Lookup func(x *ssa.Lookup, m, k AV) (AV, bool)
 	// Global gives the abstract content of a global variable's address; may be nil.
 	Global func(g *ssa.Global) (AV, bool)
+	// FuncArgs records the argument polynomial of every uninterpreted math call (symbol name -> argument).
+	FuncArgs map[string]Poly
 	MaxDepth int
 	MaxSteps int
 	steps    int
@@ -581,7 +587,12 @@ func (f *Folder) call(c *ssa.Call, args []AV) AV {
 					return Num(1)
 				}
 			}
-			return SymP(name + "(" + p.String() + ")")
+			sn := name + "(" + p.String() + ")"
+			if f.FuncArgs == nil {
+				f.FuncArgs = map[string]Poly{}
+			}
+			f.FuncArgs[sn] = p
+			return SymP(sn)
 		}
 	}
 	if IsModFunc(callee) && len(callee.Blocks) > 0 && f.depth < f.MaxDepth {
